@@ -23,6 +23,12 @@ CHECKS.update({
  "C20": ("3/C20", "All ordered pairs over a vocabulary of ~1400 record/question objects varying one identity field at a time; ==, !=, hash, set/dict, DNSRRSet and DNSCache lookups against an identity-tuple model.",
          "Trusted: the identity model as read from the property statement."),
 })
+CHECKS.update({
+ "C03": ("3/C03", "All register/update/unregister histories to the reported depth on a real instance, de-duplicated by canonical registry state (incl. empty buckets and memo slots); in every new state the full query alphabet (single questions x 8 types over registered/re-cased/unregistered names, question pairs, known-answer lists at TTL half-1/half/half+1/full) is answered by the real decoder + QueryHandler and compared with a reference responder.",
+         "Trusted: /verif/mc/models/responder_model.py. ANY on host names and NSEC known answers are outside the completeness claim (not generated)."),
+ "C04": ("3/C04", "All histories of response datagrams, clock steps (1 ms .. 3 h) and browser start/cancel to the reported depth on a live instance with AsyncServiceBrowser, de-duplicated by canonical state; alternation automaton per (type, instance), live set == cached pointer set at every quiescent point, cache content observed from inside add_service.",
+         "Trusted: virtual loop/clock; histories respect the restrictions of the quantifier (exact owner names, no case twins in one datagram, no browser start over expired-unpurged pointers)."),
+})
 NOT_YET = {}
 
 def main():
